@@ -2,7 +2,7 @@
 
 E-enum of the complete decision table: trigger T fixed; alarm ACKNOWLEDGED (A), component acknowledgement (C: DTSTAMP,
 or X-MOZ-LASTACK on a Thunderbird component) and snooze (S: X-MOZ-SNOOZE-TIME) each absent or T + delta,
-delta in {-2h, -1s, 0, +1s, +2h}: every weak ordering of the four instants.  x trigger kind {zoned, UTC, floating,
+delta in {-2h, -1s, -0.3s, 0, +0.4s, +1s, +2h}: every weak ordering of the four instants.  x trigger kind {zoned, UTC, floating,
 date, absolute UTC, absolute floating} x local time zone {unset, by name, by object, by an object of the other tz library} x provider x build path {property setters, add() of typed values,
 parsed text} x {1, 2} alarms.  One case = one row over all 6 values of A (so monotonicity in A is checked on the
 observations themselves); monotonicity in C follows from agreement with the (monotone) model in every cell.
@@ -21,7 +21,10 @@ from icalendar.prop import vDDDTypes
 from icalendar.timezone import tzp
 
 UTC = timezone.utc
-DELTAS = (None, timedelta(hours=-2), timedelta(seconds=-1), timedelta(0), timedelta(seconds=1), timedelta(hours=2))
+# increasing (the monotonicity check walks the row in this order); +-0.x s: inside one second - API-built values carry
+# microseconds, text has one-second resolution and drops them
+DELTAS = (None, timedelta(hours=-2), timedelta(seconds=-1), timedelta(microseconds=-300000), timedelta(0),
+          timedelta(microseconds=400000), timedelta(seconds=1), timedelta(hours=2))
 KINDS = ("zoned", "utc", "floating", "date", "abs-utc", "abs-floating")  # abs-*: absolute TRIGGER (DATE-TIME)
 LOCAL = ("unset", "name", "object", "object-other")  # object-other: a tzinfo of the library that is NOT the active provider
 PATHS = ("setters", "add", "parsed")
@@ -33,12 +36,19 @@ T_INSTANT = {"zoned": datetime(2024, 6, 1, 8, 0, tzinfo=UTC), "utc": datetime(20
              "abs-utc": datetime(2024, 6, 1, 10, 0, tzinfo=UTC), "abs-floating": datetime(2024, 6, 1, 8, 0, tzinfo=UTC)}
 
 
+_PARSED = [False]
+
+
 def inst(kind, delta, shift=timedelta(0)):
-    return None if delta is None else T_INSTANT[kind] + shift + delta
+    if delta is None:
+        return None
+    v = T_INSTANT[kind] + shift + delta
+    return v.replace(microsecond=0) if _PARSED[0] else v  # the parsed path sees what the text can carry
 
 
 def build(case, a_delta):
     _, provider, path, kind, local, mode, c_i, s_i, nalarms = case
+    _PARSED[0] = path == "parsed"
     comp = Event()
     comp.add("uid", "c15")
     if kind == "zoned":
@@ -79,7 +89,7 @@ def build(case, a_delta):
             al.TRIGGER = base if i == 0 else base - timedelta(hours=1)
         else:
             al.TRIGGER = timedelta(0) if i == 0 else (timedelta(days=-1) if kind == "date" else timedelta(hours=-1))
-        ack = inst(kind, a_delta) if i == 0 else inst(kind, DELTAS[(c_i + 1) % 6], timedelta(days=-1) if kind == "date" else timedelta(hours=-1))
+        ack = inst(kind, a_delta) if i == 0 else inst(kind, DELTAS[(c_i + 1) % len(DELTAS)], timedelta(days=-1) if kind == "date" else timedelta(hours=-1))
         put(al, "ACKNOWLEDGED", "ACKNOWLEDGED", ack)
         comp.add_component(al)
         shift = timedelta(0) if i == 0 else (timedelta(days=-1) if kind == "date" else timedelta(hours=-1))
@@ -251,7 +261,7 @@ def replay(case):
 
 
 def run(ctx):
-    ctx.rule = ("E-enum of the decision table: A, C, S each absent or T+{-2h,-1s,0,+1s,+2h} (6x6x6, every weak ordering incl. "
+    ctx.rule = ("E-enum of the decision table: A, C, S each absent or T+{-2h,-1s,-0.3s,0,+0.4s,+1s,+2h} (8x8x8, every weak ordering incl. "
                 "equalities; S only on Thunderbird-marked components) x trigger kind {zoned, UTC, floating, date, absolute UTC, absolute floating} x local zone "
                 "{unset, by name, by object, by an object of the other tz library} x provider x build path {setters, add typed, parsed} x {1,2} alarms. One case = a "
                 "row over all 6 values of A. non-trivial = every row.")
@@ -269,9 +279,9 @@ def run(ctx):
                 for kind in KINDS:
                     for local in LOCAL:
                         for nal in (1, 2):
-                            for c_i in range(6):
+                            for c_i in range(len(DELTAS)):
                                 yield ("r", provider, path, kind, local, "plain", c_i, 0, nal)
-                                for s_i in range(6):
+                                for s_i in range(len(DELTAS)):
                                     yield ("r", provider, path, kind, local, "tb", c_i, s_i, nal)
 
     ctx.explore("decision-table rows", gen, run_case)
